@@ -67,6 +67,11 @@ T = {
          "Walkers are pure traversals, so coverage is counted in distinct complete trees: all trees reachable by words of eight themed alphabets up to the stated depth (document mode and one fragment container per theme) are walked 12 ways each. The rebuilt-tree oracle is independent of html5lib (direct traversal of minidom / ElementTree objects).",
          "names containing '{' or ':' appear only in witness words; attribute order is compared as a mapping; the 14 void elements of the standard are required to be EmptyTag, html5lib's two legacy extras (command, event-source) are accepted either way",
          "6/C11"),
+ "C12": ("model_checking",
+         "three exhaustive explorations on the real objects: (a) explicit-state BFS over call histories on ONE shared HTMLParser per builder (32 operations + strict-mode aborts; state key = structural digest of the parser object graph, exact-equality pruning) and all short histories on a shared HTMLSerializer; (b) fault enumeration: every abortable document aborted at EVERY read position by a raising source, followed by every operation (optionally with a strict-mode abort in between); (c) a hand-written settrace/semaphore thread scheduler running two real threads with independent parsers through all schedules with <=1 preemption at every html5lib function call and <=2 preemptions at calls touching module-level state; oracle = results of the same calls on brand-new objects in a fresh interpreter (two hash seeds)",
+         "Reuse after an aborted call is just another transition, so residue left in long-lived phase objects, caches or module-level state shows up as a differing (tree, errors, encoding) triple against the cold baseline; each failing thread schedule is replayed and must fail identically before it is believed.",
+         "preemption only at function-call granularity under the GIL (no bytecode-level interleaving, no C-level builtins); at most 2 threads; no Python race detector exists in the image, so unsynchronised accesses that never change an observable result are not reported",
+         "6/C12"),
  "C13": ("exploration",
          "bounded exhaustive enumeration of token streams: the filter's complete (previous, token, next) decision domain (all streams <=3 over 134 walker tokens) + all streams of length 4-5 over a reduced alphabet, real filter, oracle = independent predicate written from the standard's optional-tags section; parse-equivalence clause over generated conforming trees in C07's space",
          "The filter decides from a 3-token window, so enumerating every stream of length <=3 over an alphabet that contains every omissible element (with/without attributes), look-alike names, foreign elements, void elements, text, whitespace, comments and doctype visits every decision it can make; longer streams over a reduced alphabet would expose state added by a change. Each removed token is checked against ref/optional_tags.py.",
